@@ -1166,6 +1166,9 @@ func (fr *Frame) backEdge(u, h *ssa.BasicBlock, st *State) {
 			}
 			env.hdrEnv = henv
 			g, err := env.evalBool(c.Expr)
+			if err != nil && strings.Contains(err.Error(), "was not reached") {
+				continue // the clause speaks about a call this back edge's paths never make (e.g. an early `continue`)
+			}
 			if err != nil {
 				fx.unsupported = append(fx.unsupported, fmt.Sprintf("loop %d step %q: %v", ord, c.Src, err))
 				continue
